@@ -234,6 +234,12 @@ type c15Env struct {
 	Chain    string
 	ClientID string
 	Created  map[int]bool
+	// the set the last ACCEPTED, effective refresh installed (configured client, strictly higher height),
+	// tracked from the stream's own operations, never read back from the keeper
+	InstSet       map[string]*big.Int // consensus address -> tokens (voting power * 10^6)
+	InstTotal     *big.Int
+	SetH          int64
+	LastEffective bool
 	Ops      []C15Op
 	Obs      []Ov
 	ID       int
@@ -442,6 +448,20 @@ func (ce *c15Env) exec(o C15Op) ExecResult {
 	})
 }
 
+// effectiveSet: is this accepted validator-set update one that must replace the recorded set (configured,
+// non-empty client id and a height above the last installed one), and which set does it carry
+// (a repeated validator keeps its last entry; tokens = voting power * 10^6)
+func (ce *c15Env) effectiveSet(o C15Op, ok bool) (map[string]*big.Int, bool) {
+	if o.Kind != "hostset" || !ok || !ce.HasInfo || o.Client == "" || o.Client != ce.ClientID || o.HHeight <= ce.SetH {
+		return nil, false
+	}
+	m := map[string]*big.Int{}
+	for _, en := range o.Entries {
+		m[string(ce.Vals[en.Val].Addr)] = new(big.Int).Mul(big.NewInt(en.Power), big.NewInt(1000000))
+	}
+	return m, true
+}
+
 // Do executes the op, records it and its observation, and runs the model-free monitor.
 func (ce *c15Env) Do(o C15Op, rep *Report) bool {
 	before := ce.readState()
@@ -452,6 +472,17 @@ func (ce *c15Env) Do(o C15Op, rep *Report) bool {
 	step := len(ce.Ops) - 1
 	ce.monitor(rep, step, o, before, after, res.OK)
 	// the harness's own record of the inputs
+	if o.Kind == "hostset" {
+		m, eff := ce.effectiveSet(o, res.OK)
+		ce.LastEffective = eff
+		if eff {
+			ce.InstSet, ce.SetH = m, o.HHeight
+			ce.InstTotal = new(big.Int)
+			for _, a := range sortedKeys(m) {
+				ce.InstTotal.Add(ce.InstTotal, m[a])
+			}
+		}
+	}
 	if res.OK {
 		switch o.Kind {
 		case "execs":
@@ -504,6 +535,10 @@ func (ce *c15Env) history(upto int) []string {
 // Restates C15 over the implementation's own before/after states and the submitted bytes.
 func (ce *c15Env) monitor(rep *Report, step int, o C15Op, before, after c15State, ok bool) {
 	viol := func(sig, what string, detail interface{}) {
+		c15SigCount[sig]++
+		if c15SigCount[sig] > 2 { // at most two reports per signature and run, so that different kinds stay visible
+			return
+		}
 		rep.Violate(Violation{Case: ce.ID, Step: step, What: what, Sig: sig, Ops: ce.history(step), Detail: detail})
 	}
 	// (1) the host set is only replaced by a higher-height set from the configured client
@@ -517,6 +552,33 @@ func (ce *c15Env) monitor(rep *Report, step int, o C15Op, before, after c15State
 			viol("C15:set-not-higher", fmt.Sprintf("host validator set at height %d replaced by a set of height %d", before.H, o.HHeight), nil)
 		case !after.HasH || after.H != o.HHeight:
 			viol("C15:set-height-record", "recorded set height differs from the update's height", nil)
+		}
+	}
+	// (1b) an accepted, effective refresh leaves EXACTLY its own set recorded: same validators, keys
+	// (address = hash of the key), powers, and nothing else
+	if want, eff := ce.effectiveSet(o, ok); eff {
+		var diffs []string
+		for _, a := range sortedKeys(want) {
+			got, has := after.ByAddr[a]
+			if !has {
+				diffs = append(diffs, fmt.Sprintf("missing %X", a))
+			} else if got.Cmp(want[a]) != 0 {
+				diffs = append(diffs, fmt.Sprintf("%X recorded with %s tokens, update has %s", a, got, want[a]))
+			}
+		}
+		for _, a := range sortedKeys(after.ByAddr) {
+			if _, has := want[a]; !has {
+				diffs = append(diffs, fmt.Sprintf("stale %X still recorded with %s tokens", a, after.ByAddr[a]))
+			}
+		}
+		if after.NVals != len(want) && len(diffs) == 0 {
+			diffs = append(diffs, fmt.Sprintf("%d validators recorded, update has %d", after.NVals, len(want)))
+		}
+		if !after.HasH || after.H != o.HHeight {
+			diffs = append(diffs, fmt.Sprintf("recorded height %d (present=%v), update height %d", after.H, after.HasH, o.HHeight))
+		}
+		if len(diffs) > 0 {
+			viol("C15:set-not-exactly-replaced", "after an accepted validator-set update the recorded set is not exactly the update's set: "+diffs[0], diffs)
 		}
 	}
 	// quotes may change only by oracle updates
@@ -571,7 +633,7 @@ func (ce *c15Env) monitor(rep *Report, step int, o C15Op, before, after c15State
 		seen := map[string]bool{}
 		w := new(big.Int)
 		for _, v := range info.Votes {
-			tk, known := before.ByAddr[string(v.Validator.Address)]
+			tk, known := ce.InstSet[string(v.Validator.Address)]
 			if !known || seen[string(v.Validator.Address)] || v.BlockIdFlag != cmtproto.BlockIDFlagCommit {
 				continue
 			}
@@ -602,10 +664,14 @@ func (ce *c15Env) monitor(rep *Report, step int, o C15Op, before, after c15State
 			seen[string(v.Validator.Address)] = true
 			w.Add(w, tk)
 		}
+		total := ce.InstTotal
+		if total == nil {
+			total = new(big.Int)
+		}
 		lhs := new(big.Int).Mul(w, big.NewInt(3))
-		rhs := new(big.Int).Mul(before.TotalTk, big.NewInt(2))
-		if lhs.Cmp(rhs) < 0 || before.TotalTk.Sign() <= 0 {
-			noQuorum = append(noQuorum, fmt.Sprintf("%s: validly signed distinct power %s of %s", c15PairNames[pi], w, before.TotalTk))
+		rhs := new(big.Int).Mul(total, big.NewInt(2))
+		if lhs.Cmp(rhs) < 0 || total.Sign() <= 0 {
+			noQuorum = append(noQuorum, fmt.Sprintf("%s: validly signed distinct power %s of %s (validators of the last installed set)", c15PairNames[pi], w, total))
 		}
 		// (5) timestamps strictly increase per pair
 		if before.Quotes[pi].Has && !(after.Quotes[pi].TS > before.Quotes[pi].TS) {
@@ -694,6 +760,54 @@ type c15Gen struct {
 	rejected int
 	jitter   int
 	disrupt  int
+	retired  []c15Entry // validators (with their last power) that left at the last rotating refresh
+	attack   int        // number of upcoming updates to be signed only by the retired validators
+}
+
+// 2200-01-01T00:00:00Z in ns: far in the future of any wall clock, still inside int64
+const c15Year2200 = int64(7258118400) * 1000000000
+
+// rotate: a refresh in which validators LEAVE while the set size stays equal or grows: the r most
+// powerful members retire, at least r newcomers (power 1) join, the others keep their power
+func (g *c15Gen) rotate() ([]c15Entry, []c15Entry, bool) {
+	r := g.r
+	in := map[int]bool{}
+	for _, en := range g.inSet {
+		in[en.Val] = true
+	}
+	var outs []int
+	for i := range g.ce.Vals {
+		if !in[i] {
+			outs = append(outs, i)
+		}
+	}
+	if len(outs) == 0 || len(g.inSet) == 0 {
+		return nil, nil, false
+	}
+	cur := append([]c15Entry{}, g.inSet...)
+	sort.SliceStable(cur, func(i, j int) bool { return cur[i].Power > cur[j].Power })
+	nr := 1 + r.Intn(len(cur))
+	if nr > len(outs) {
+		nr = len(outs)
+	}
+	retired, kept := cur[:nr], cur[nr:]
+	for i := len(outs) - 1; i > 0; i-- {
+		j := r.Intn(i + 1)
+		outs[i], outs[j] = outs[j], outs[i]
+	}
+	nn := nr
+	if len(outs) > nr && r.Bool() {
+		nn = nr + 1
+	}
+	set := append([]c15Entry{}, kept...)
+	for _, v := range outs[:nn] {
+		set = append(set, c15Entry{Val: v, Power: 1})
+	}
+	for i := len(set) - 1; i > 0; i-- {
+		j := r.Intn(i + 1)
+		set[i], set[j] = set[j], set[i]
+	}
+	return set, append([]c15Entry{}, retired...), true
 }
 
 func (g *c15Gen) powerOf(val int) int64 {
@@ -748,6 +862,12 @@ func (g *c15Gen) oracleOp() C15Op {
 	o := C15Op{Kind: "oracle", Blk: g.blk}
 	// 72% of the updates are well-formed in sender, height and timestamp; the others deviate in exactly one
 	dev := r.Weighted([]int{72, 7, 9, 12})
+	if g.attack > 0 && len(g.retired) > 0 {
+		dev = 0
+	}
+	if r.Chance(2) && g.tsNext < c15Year2200 { // the L1 clock jumps far ahead of any wall clock (timestamps are inputs)
+		g.tsNext = c15Year2200 + int64(r.Intn(1000000))
+	}
 	// sender
 	sw := 0
 	if dev == 1 {
@@ -830,7 +950,13 @@ func (g *c15Gen) oracleOp() C15Op {
 	if dev != 0 && r.Chance(70) {
 		shape = 0 // deviations are mostly paired with an otherwise honest commit
 	}
-	notes := []string{"all-honest", "subset", "perturbed", "dup-attack", "unsigned-mix"}
+	if len(g.retired) > 0 && (g.attack > 0 || r.Chance(6)) {
+		shape = 5 // only validators that left the set sign (fresh timestamps, otherwise well-formed)
+		if g.attack > 0 {
+			g.attack--
+		}
+	}
+	notes := []string{"all-honest", "subset", "perturbed", "dup-attack", "unsigned-mix", "retired-only"}
 	o.Note = notes[shape]
 	chain := ce.Chain
 	h1 := int64(o.Height) - 1
@@ -847,6 +973,13 @@ func (g *c15Gen) oracleOp() C15Op {
 		members[i], members[j] = members[j], members[i]
 	}
 	switch shape {
+	case 5:
+		for _, en := range g.retired {
+			votes = append(votes, mk(en.Val, 0))
+		}
+		if r.Chance(30) { // plus a minority of the current set
+			votes = append(votes, mk(members[0].Val, 0))
+		}
 	case 0:
 		for _, en := range members {
 			votes = append(votes, mk(en.Val, 0))
@@ -1088,10 +1221,11 @@ func (g *c15Gen) oracleOp() C15Op {
 // validator-set profiles: unequal powers around the 2/3 line, incl. totals that wrap totalVP*2
 func (g *c15Gen) newSet() []c15Entry {
 	r, n := g.r, len(g.ce.Vals)
-	k := 3 + r.Intn(n-2)
-	if k > n {
-		k = n
+	top := n
+	if top > 7 {
+		top = 7
 	}
+	k := 3 + r.Intn(top-2)
 	perm := make([]int, n)
 	for i := range perm {
 		perm[i] = i
@@ -1140,10 +1274,13 @@ func (g *c15Gen) applySet(o C15Op) {
 	g.setH = o.HHeight
 }
 
+var c15SigCount = map[string]int{}
+
 func init() { register("C15", genC15) }
 
 func genC15(seed uint64, tier string, outdir string) *Report {
 	rep := NewReport("C15", seed, tier)
+	c15SigCount = map[string]int{}
 	rep.Rule = "a case is one history of oracle updates, validator-set refreshes, executor / bridge-info changes on a fresh chain; distinct by hash of the op list; non-trivial = at least one oracle update accepted and at least one rejected"
 	nCases, nOps := 72, 22
 	if tier == "thorough" {
@@ -1152,10 +1289,13 @@ func genC15(seed uint64, tier string, outdir string) *Report {
 	var texts []string
 	for k := 0; k < nCases; k++ {
 		r := NewRng(seed*7919 + uint64(k))
-		nVals := 3 + r.Intn(5) // 3..7 validators in the universe (some may be outside the stored set)
+		nVals := 4 + r.Intn(6) // 4..9 validators in the universe; a stored set has 3..7 of them
 		ce := newC15Env(seed*100003+uint64(k), k+1, nVals)
 		g := &c15Gen{ce: ce, r: r, profile: r.Weighted([]int{35, 25, 25, 5, 10}), tsNext: 1000000000000000000, blk: 10,
 			price: []int64{0, 6500000, 320000, 900, 5}}
+		if r.Chance(15) { // the whole case plays in the year 2200
+			g.tsNext = c15Year2200 + int64(r.Intn(1000000))
+		}
 		do := func(o C15Op) bool {
 			o.Blk = g.blk
 			g.blk++
@@ -1171,7 +1311,7 @@ func genC15(seed uint64, tier string, outdir string) *Report {
 			do(g.oracleOp())
 		}
 		first := C15Op{Kind: "hostset", Client: "07-tendermint-0", ClientID: 1, HHeight: int64(5 + r.Intn(20)), Entries: g.newSet()}
-		if do(first) {
+		if do(first); ce.LastEffective {
 			g.applySet(first)
 		}
 		for i := 0; i < nOps; i++ {
@@ -1206,7 +1346,18 @@ func genC15(seed uint64, tier string, outdir string) *Report {
 				}
 			case 1:
 				o := C15Op{Kind: "hostset", Client: "07-tendermint-0", ClientID: 1, Entries: g.newSet()}
-				switch r.Weighted([]int{55, 10, 10, 10, 8, 7}) {
+				var retiring []c15Entry
+				if r.Chance(35) {
+					if set, ret, ok := g.rotate(); ok {
+						o.Entries, retiring = set, ret
+						o.Client, o.ClientID = ce.ClientID, c15StrID(ce.ClientID)
+					}
+				}
+				hsel := r.Weighted([]int{55, 10, 10, 10, 8, 7})
+				if retiring != nil {
+					hsel = 0
+				}
+				switch hsel {
 				case 0:
 					o.HHeight = g.setH + int64(1+r.Intn(5))
 				case 1:
@@ -1222,10 +1373,13 @@ func genC15(seed uint64, tier string, outdir string) *Report {
 				case 5:
 					o.HHeight = []int64{0, -3}[r.Intn(2)]
 				}
-				stBefore := ce.readState()
-				if do(o) {
-					if st := ce.readState(); !st.sameSet(stBefore) {
-						g.applySet(o)
+				if do(o); ce.LastEffective {
+					g.applySet(o)
+					g.retired = retiring
+					if retiring != nil {
+						g.attack = 1 + r.Intn(2)
+					} else {
+						g.attack = 0
 					}
 				}
 			case 2:
